@@ -5,9 +5,13 @@
   FULL STATEMENT (not proved as a whole):
     Acyclic G → costs defined → ∃ k, after k calls of `next` the generator has stopped and its output
     is a permutation of the language of G.
-  Proved: NOTHING OUTSIDE (C02_Beap_sound, every history) and EACH PROGRAM AT MOST ONCE (C02_Beap_nodup, every
-  prefix of every run from the fresh generator, positive rule costs).  Not proved: every program of the
-  language is yielded, and termination on finite grammars.
+  Proved: NOTHING OUTSIDE (C02_Beap_sound, every history), EACH PROGRAM AT MOST ONCE (C02_Beap_nodup, every
+  prefix of every run from the fresh generator, positive rule costs), EVERY PROGRAM (C02_Beap_complete: when the
+  generator has stopped every priced derivation of the start symbol all of whose sub-programs the filter accepts
+  has been yielded; C02_Beap_full: without a filter the output of a stopped generator is a permutation of the
+  language), and TERMINATION in the partial form C02_Beap_terminates_partial (|language| + 1 calls of `next`
+  reach the end whenever the model run returns: explicit decidable hypothesis).  Not proved: that a sufficient
+  fuel exists (termination of one `next` call; no exception).
 
   Proved here, for every grammar with distinct dict keys (`RowsNodup`), every cost table, every
   filter, every fuel and every HISTORY of `next` / `merge_program` calls (`Reach`):
@@ -33,8 +37,12 @@
       non-zero combination of the box is produced from a combination of smaller weight;
     * C02_Beap_frontier_model — the model's successor loop pushes exactly these combinations.
   COST SOUNDNESS ("stored under its true cost index") is in the C03 part file (C03_Beap_bank_cost).
-  Completeness / termination on finite grammars: compared on every generated case (exact
-  correspondence of yielded sequence and tables, independent language oracle), not proved.
+  COMPLETENESS (round 2; proofs in PS/Proofs/Enum/BeapCompl*.lean, see the end of this file): invariants CR (every
+  clean program cheaper than the last cost of S is in the bank entry of its cost), FR (every other clean program
+  is in the last bank entry or has an element of its rule on its producer chain in `_queues[S]`), FrK (the same
+  for a running query, with its pending product); the early-stop branch of `generator()` is dead without merges.
+  Termination of one `next` call: compared on every generated case (exact correspondence of yielded sequence
+  and tables, independent language oracle), not proved.
 -/
 import PS.Proofs.Enum.BeapSoundRun
 import PS.Proofs.Enum.BeapFrontier
